@@ -468,7 +468,20 @@ def perturb(rng, st, extra_stacks):
         elif r < 0.45:
             c.obj = None
             done.append("drop-obj")
-        if c.inner_stack is not None:
+        if rng.random() < 0.06:
+            # an inner stack that has no frames (e.g. what extract_child gives for an opaque
+            # object), but may still carry a leaf and / or an error
+            inner = stackscope.Stack(root=Root(3000 + rng.randrange(9)), frames=[])
+            if rng.randrange(3):
+                inner.leaf = Root(2100 + rng.randrange(9))
+            if rng.randrange(2):
+                try:
+                    raise KeyError("empty inner failure %d" % rng.randrange(9))
+                except KeyError as e:
+                    inner.error = e
+            c.inner_stack = inner
+            done.append("empty-inner")
+        elif c.inner_stack is not None:
             r2 = rng.random()
             if r2 < 0.12:
                 c.inner_stack.leaf = Root(2000 + rng.randrange(9))
